@@ -107,7 +107,6 @@ void EventLoop::loop()
   assertInLoopThread();
   looping_ = true;
   MUDUO_VERIF_POINT("EventLoop::loop:entry", this);
-  quit_ = false;  // FIXME: what if someone calls quit() before loop() ?
   LOG_TRACE << "EventLoop " << this << " start looping";
 
   while (!quit_)
@@ -137,6 +136,9 @@ void EventLoop::loop()
 
   LOG_TRACE << "EventLoop " << this << " stop looping";
   looping_ = false;
+  // re-arm for a later loop() here, not at entry: a quit() that completed
+  // before loop() started must still end it
+  quit_ = false;
 }
 
 void EventLoop::quit()
